@@ -930,7 +930,26 @@ def b_round(ex, x, n=None):
 
 
 def b_isinstance(ex, v, cls):
-    raise OutOfSubset("isinstance")
+    if isinstance(cls, tuple):
+        return any(b_isinstance(ex, v, c) for c in cls)
+    name = cls.name if isinstance(cls, LibFn) else (cls if isinstance(cls, str) else getattr(cls, "path", None))
+    if isinstance(v, MapList):
+        v = v.arr
+    if name in ("pandas.DataFrame",):
+        return isinstance(v, TableV) and v.kind == "DataFrame"
+    if name in ("dict", "collections.abc.Mapping", "collections.abc.MutableMapping", "typing.Mapping"):
+        return isinstance(v, dict) or (isinstance(v, TableV) and (v.kind == "dict" or name != "dict"))
+    if name in ("ndarray", "numpy.ndarray"):
+        return isinstance(v, ArrV)
+    if name in ("float", "int"):
+        if isinstance(v, T):
+            return (v.sort == tm.R) if name == "float" else (v.sort == tm.I)
+        return False
+    if name in ("list", "tuple"):
+        return isinstance(v, list if name == "list" else tuple)
+    if isinstance(cls, ClassV):
+        return isinstance(v, ObjV) and cls in v.cls.mro()
+    raise OutOfSubset(f"isinstance(..., {name})")
 
 
 def b_hasattr(ex, o, name):
@@ -973,6 +992,7 @@ BUILTINS = {
     "range": LibFn("range", b_range),
     "isinstance": LibFn("isinstance", b_isinstance),
     "hasattr": LibFn("hasattr", b_hasattr),
+    "dict_type": None,
     "str": LibFn("str", lambda ex, v="": "<str>"),
     "repr": LibFn("repr", lambda ex, v="": "<str>"),
     "print": LibFn("print", lambda ex, *a, **k: None),
@@ -1350,15 +1370,20 @@ class Interp1dV:
         """the value at a node is the node value (any kind)"""
         return tm.implies(tm.land(tm.le(tm.const(0), J), tm.lt(J, self.n)), tm.eq(self.app(self.xf(J)), self.yf(J)))
 
-    def seg_facts(self, q, s):
-        """linear kind, x strictly increasing, x[0] <= q <= x[n-1]: q lies in segment s and the value is the chord"""
+    def seg_facts(self, q, s, theta=None):
+        """linear kind, x strictly increasing, x[0] <= q <= x[n-1]: q lies in segment s at relative position theta in
+        [0, 1] and the value is the chord:  q = x_s + theta (x_{s+1} - x_s),  I(q) = y_s + theta (y_{s+1} - y_s)"""
         if self.kind != "linear":
             return []
         one = tm.const(1)
         xs, xs1, ys, ys1 = self.xf(s), self.xf(tm.add(s, one)), self.yf(s), self.yf(tm.add(s, one))
         inside = tm.land(tm.le(self.xf(tm.const(0)), q), tm.le(q, self.xf(tm.sub(self.n, one))))
-        return [tm.implies(inside, tm.land(tm.le(tm.const(0), s), tm.le(s, tm.sub(self.n, tm.const(2))), tm.le(xs, q), tm.le(q, xs1),
-                                            tm.eq(self.app(q), tm.add(ys, tm.div(tm.mul(tm.sub(q, xs), tm.sub(ys1, ys)), tm.sub(xs1, xs))))))]
+        if theta is None:
+            return [tm.implies(inside, tm.land(tm.le(tm.const(0), s), tm.le(s, tm.sub(self.n, tm.const(2))), tm.le(xs, q), tm.le(q, xs1),
+                                                tm.eq(self.app(q), tm.add(ys, tm.div(tm.mul(tm.sub(q, xs), tm.sub(ys1, ys)), tm.sub(xs1, xs))))))]
+        return [tm.implies(inside, tm.land(tm.le(tm.const(0), s), tm.le(s, tm.sub(self.n, tm.const(2))), tm.le(tm.rconst(0), theta), tm.le(theta, tm.rconst(1)),
+                                            tm.eq(q, tm.add(xs, tm.mul(theta, tm.sub(xs1, xs)))),
+                                            tm.eq(self.app(q), tm.add(ys, tm.mul(theta, tm.sub(ys1, ys))))))]
 
     def outside_facts(self, q):
         one = tm.const(1)
